@@ -4,6 +4,7 @@ import ScriggoV.Model.Eval
 import ScriggoV.Model.Compile
 import ScriggoV.Model.CompileCond
 import ScriggoV.Model.FieldIndex
+import ScriggoV.Model.CommaOk
 /-! line-protocol handler for C01 (stage one). Requests (after the leading `C01`):
 
 * `bin <op> <kind> <x> <y>`        — `x op y`, both of `kind`
@@ -32,6 +33,13 @@ import ScriggoV.Model.FieldIndex
   `<path>` = `<len> <i>…`; `<expr>` = `lit <z>` | `var <x>` | `sel <path> <expr>` | `mk <k> <expr>…` |
   `add <expr> <expr>` | `eq <expr> <expr>`; `<stmt>` = `decl <expr>` | `asg <x> <steps> <path>… <expr>` |
   `opa <x> <steps> <path>… <expr>` | `pr <expr>` | `dump <x>`
+
+* `cok <form> <kind> <n> <exec>…`  — a comma-ok / may-fail site (`assert` | `mapidx` | `recv`) with a value
+  result of reflect kind `<kind>`, executed `n` times; `<exec>` = `s<p>` (succeeds with the value of payload
+  `p`, 0 = the zero value) | `f` (fails); answers `ok <p>:<ok> … ; <p>:<ok> …`: what Go says
+  (`CommaOk.spec`), then what the VM model of `Model/CommaOk.lean` yields — the regenerated destination
+  code of OpAssert / OpMapIndex / OpReceive run on a register file that starts zeroed (a fresh frame) and
+  is kept from one execution to the next (`undefined` when the code reads the value on the failing path)
 
 `<cond>` is `clit true|false`, `ccmp <op> <expr> <expr>`, `lenl <op> <s> <expr>`, `lenr <op> <expr> <s>`,
 `cnot <bval>`, `cval <bval>` with `<bval>` = `bcmp <op> <expr> <expr>` | `bvar <i>`.
@@ -354,10 +362,39 @@ def handle (np : Nat) (toks : List String) : Option String := do
 
 end S
 
+namespace K
+open ScriggoV.CommaOk
+
+def pExec (s : String) : Option Exec :=
+  if s == "f" then some ⟨false, 0⟩
+  else if s.startsWith "s" then (s.drop 1).toNat?.map fun p => ⟨true, p⟩
+  else none
+
+def showRun (l : List (Nat × Bool)) : String :=
+  if l.isEmpty then "-" else " ".intercalate (l.map fun x => toString x.1 ++ ":" ++ (if x.2 then "true" else "false"))
+
+def handle (form kind n : String) (toks : List String) : Option String := do
+  let f ← match form with
+    | "assert" => some Form.assert
+    | "mapidx" => some Form.mapIndex
+    | "recv" => some Form.receive
+    | _ => none
+  let k ← kindOfName kind
+  let n ← n.toNat?
+  if toks.length != n then none
+  let es ← toks.mapM pExec
+  let vm := match vmRun f k 1 es (fun _ _ => 0) with
+    | some l => showRun l
+    | none => "undefined"
+  pure ("ok " ++ showRun (spec es) ++ " ; " ++ vm)
+
+end K
+
 def handle : List String → Option String
   | "srun" :: np :: rest => do
     let np ← np.toNat?
     S.handle np rest
+  | "cok" :: form :: kind :: n :: toks => K.handle form kind n toks
   | ["bin", op, k, x, y] => do
     let op ← Eval.binOfName op
     let k ← Kind.ofName k
